@@ -50,7 +50,7 @@ const ALLOWED: [(&str, &str, &str); 6] = [
 
 pub fn run(m: &Model, ctx: &mut Ctx, facts: &Facts) {
     ctx.explanation = "C20.effects (MIR): every file/stdout/process effect reachable from Compiler's public methods is located in output_generated (or the audited rustfmt child); nothing else on the compile path writes. \
-C20.dom (MIR dominators): output_generated is called only from compile(), at a block dominated by the Continue edge of `internal_compile()?` — on Err nothing is written. \
+C20.dom (MIR dominators): output_generated is called only from compile(), at a block dominated by the Continue edge of `internal_compile()?` — on Err nothing is written; and on the Ok edge every path to the return of compile() passes through it (must-pass-through: the delivery is unconditional). \
 C20.same (syn + MIR): the argument of output_generated is the `generated` field of fmt(internal_compile()) — the same pipeline compile_to_string() returns. \
 C20.dest (decision tables): OutputMode -> action in output_generated (file; directory => generated + FILE_EXTENSION; stdout; none), every io::Result mapped to Err; CLI flags -> OutputMode; \
 CLI exit status: Ok => SUCCESS, Err => FAILURE, both backends built through the same builder chain. \
@@ -187,6 +187,38 @@ File-system semantics (atomicity of fs::write, read-only destinations) are not d
                             "the call to output_generated is not dominated by the Ok edge of `internal_compile()?`: something can be written although compilation failed");
                     } else {
                         ctx.sample(json!({"compile": {"internal_compile_bb": ic, "try_branch_bb": bb, "continue_bb": cont[0], "break_bb": brk[0], "output_generated_bb": og_block}}));
+                    }
+                    // must-pass-through: once compilation has succeeded, every path to the return of compile() runs the
+                    // delivery (a successful compile() always hands its text to the selected destination, whatever the text)
+                    if cont.len() == 1 {
+                        ctx.oblige("C20.dom", "every-Ok-path-delivers", true);
+                        let mut seen: BTreeSet<usize> = BTreeSet::new();
+                        let mut stack = vec![cont[0]];
+                        let mut escaped: Option<usize> = None;
+                        while let Some(b) = stack.pop() {
+                            if b == og_block || !seen.insert(b) {
+                                continue;
+                            }
+                            let bl = &c.blocks[b];
+                            if bl.cleanup || bl.t == "unreachable" || bl.t == "resume" {
+                                continue;
+                            }
+                            if bl.t == "return" {
+                                escaped = Some(b);
+                                break;
+                            }
+                            for n in &bl.succ {
+                                if !c.blocks[*n].cleanup {
+                                    stack.push(*n);
+                                }
+                            }
+                        }
+                        if let Some(b) = escaped {
+                            // the block where the path leaves the way to the delivery: the last switch seen on it
+                            let line = seen.iter().filter(|x| c.blocks[**x].t == "switch").map(|x| c.blocks[*x].line).max().unwrap_or(c.blocks[b].line);
+                            ctx.violate("C20.dom", "every-Ok-path-delivers", &c.file, line,
+                                "compile() can return after a successful internal_compile() without calling output_generated (the delivery is conditional): the destination is then neither written nor checked, although compile_to_string() returns a text for the same input");
+                        }
                     }
                 }
             }
